@@ -13,6 +13,7 @@ import AdaptixProofs.Lemmas.ThreadsProgress
 import AdaptixProofs.Lemmas.ThreadsCompile
 import AdaptixProofs.Lemmas.ThreadsTypedInv
 import AdaptixProofs.Lemmas.ThreadsSeq
+import AdaptixProofs.Lemmas.ThreadsAtomicCall
 
 namespace Adaptix.Threads.C12
 
@@ -182,6 +183,14 @@ theorem all_schedules_safe (G : Graph) (fuel evalFuel : Nat) (reqs : List (TyId 
       · rw [List.getElem?_eq_none h] at hr; cases hr
     rw [count_sequentialSchedule hlt]
     exact le_seqBound _ reqs r (List.mem_of_getElem? hr)
+
+/-- **The call may be atomic in the model.**  Closures are immutable and stub targets only change from unbound
+    to bound (`Ext`, which every action establishes: it appends to the heap or the stub table, or binds an unbound
+    stub of the acting request), so a call that succeeds on the state at its start returns the same value on
+    every later state: a real call that reads the stubs later, one at a time, cannot see anything else. -/
+theorem successful_call_is_stable (s s' : State) (e : Ext s s') (n d : Nat) (r : Ref) (o : List Nat)
+    (h : eval s.heap s.stubs n d r = .ok o) : eval s'.heap s'.stubs n d r = .ok o :=
+  eval_ok_stable e n d r o h
 
 /-! ### the unrepaired tree: stubs equal by location -/
 
